@@ -1696,6 +1696,7 @@ class SpaceUpdater(SharedSpaceOperations):
                 Instruction(self._update_derived_space, (v,)))
 
         try:
+            self._check_member_conflict(node)
             self._instructions.execute()
         except BaseException:
             container.del_item(name)
@@ -1704,6 +1705,34 @@ class SpaceUpdater(SharedSpaceOperations):
         self._update_manager()
 
         return space
+
+    def _check_member_conflict(self, node):
+        """Check name conflict between spaces, cells, refs
+
+        Raise an error if a name would denote two kinds of members
+        in ``node`` or in any of its descendants.
+        """
+        for desc in itertools.chain(
+                {node},
+                nx.descendants(self._graph, node)):
+
+            mro = self._graph.get_mro(desc)
+
+            members = {}
+            for attr in ["spaces", "cells", "refs"]:
+                namechain = []
+                for sname in mro:
+                    space = self._graph.to_space(sname)
+                    namechain.append(set(getattr(space, attr).keys()))
+                members[attr] = set().union(*namechain)
+
+            conflict = set()
+            kinds = list(members.values())
+            for i, names in enumerate(kinds):
+                for others in kinds[i + 1:]:
+                    conflict |= names & others
+            if conflict:
+                raise NameError("name conflict: %s" % conflict)
 
     def add_bases(self, space, bases):
         """Add bases to space in graph
@@ -1730,28 +1759,7 @@ class SpaceUpdater(SharedSpaceOperations):
                 self._graph, node)):
             self._graph.get_mro(n)
 
-        for desc in itertools.chain(
-                {node},
-                nx.descendants(self._graph, node)):
-
-            mro = self._graph.get_mro(desc)
-
-            # Check name conflict between spaces, cells, refs
-            members = {}
-            for attr in ["spaces", "cells", "refs"]:
-                namechain = []
-                for sname in mro:
-                    space = self._graph.to_space(sname)
-                    namechain.append(set(getattr(space, attr).keys()))
-                members[attr] = set().union(*namechain)
-
-            conflict = set()
-            kinds = list(members.values())
-            for i, names in enumerate(kinds):
-                for others in kinds[i + 1:]:
-                    conflict |= names & others
-            if conflict:
-                raise NameError("name conflict: %s" % conflict)
+        self._check_member_conflict(node)
 
         self._instructions.append(
             Instruction(self._update_derived_space, (node,)))
